@@ -22,6 +22,8 @@ fixed("C08","61eb52a","site code.*AtomicRmw* wrong-entity | *","atomic read-modi
 fixed("C07","2a82588","duplicate-id global | after {AddGlobal.*.iter, AddImportedGlobal} @gl-imports-only","add_imported_global returned the ID of a global previously added through an iterator")
 fixed("C29","7a7f54a","name function wrong-name | after {SetFnName.0} @named-all","set_fn_name on an imported function behind a non-function import dropped the name or named another import")
 
+fixed("C06","ca8bc01","site code.* missing | after {DeleteFunc, InjectFn.*.modifier-fn-entry} @*","function-entry (and every other special-mode) code on the first local functions was silently dropped after an imported function had been deleted: the resolution walk started at a counter that still included the deleted import (witness [DeleteFunc(fspare), InjectFn(func_entry on $l0)] on fn-min)")
+
 # ---- open findings ------------------------------------------------------------------------------
 for opk,ex in [("AddImportFunc","[AddImportFunc]"),("DeleteFunc","[DeleteFunc(spare)]"),("LocalToImport","[LocalToImport(1)]"),("ImportToLocal","[ImportToLocal(0)]"),
                ("AddImportedGlobal","[AddImportedGlobal]"),("DeleteGlobal","[DeleteGlobal(spare)]"),("AddImportMem","[AddImportMem]"),("DeleteMem","[DeleteMem(spare)]")]:
